@@ -168,7 +168,7 @@ func (e *Engine) LoopProgress(f *ssa.Function) []LoopRes {
 				break
 			}
 		}
-		res.Desc = fmt.Sprintf("#%d", li+1)
+		res.Desc = ""
 		if a.in[l.head] == nil {
 			res.Why = "loop unreachable"
 			out = append(out, res)
@@ -184,7 +184,7 @@ func (e *Engine) LoopProgress(f *ssa.Function) []LoopRes {
 			}
 		}
 		if isNext {
-			res.Desc += " range"
+			res.Desc = "range"
 			res.Why = "range iteration (finite collection, driven by Next)"
 			out = append(out, res)
 			continue
@@ -199,6 +199,7 @@ func (e *Engine) LoopProgress(f *ssa.Function) []LoopRes {
 			why  string
 			ok   bool
 			part string
+			cond string
 		}
 		var best *cand
 		for _, ins := range l.head.Instrs {
@@ -258,7 +259,19 @@ func (e *Engine) LoopProgress(f *ssa.Function) []LoopRes {
 						}
 						if inv {
 							boundTxt = nf.String() + " >= 0 on the staying edge"
-							inputBound = rest.dependsOnInput() || !rest.IsConst()
+							if t := exprAt(f, iff.Cond.Pos(), ""); t != "" {
+								c.cond = t
+							}
+							inputBound = !rest.IsConst()
+							if inputBound && depth > 1 && a.in[tb] != nil {
+								// nested loop: a bound that is itself bounded by a constant keeps the nest linear
+								pr := a.proverFor(a.in[tb])
+								pr.steps = 0
+								if pr.prove(Scale(rest, -dir).plus(4096), 7, nil) {
+									inputBound = false
+									boundTxt += " (bound itself bounded by a constant)"
+								}
+							}
 						}
 					}
 				}
@@ -317,10 +330,10 @@ func (e *Engine) LoopProgress(f *ssa.Function) []LoopRes {
 			res.Status = Unsupported
 			res.Why = "loop shape not recognised: no integer loop variable with an invariant bound tested on every iteration"
 		case best.ok:
-			res.Desc += " " + best.phi.Comment
+			res.Desc = best.phi.Comment + " | " + best.cond
 			res.Why = best.why
 		default:
-			res.Desc += " " + best.phi.Comment
+			res.Desc = best.phi.Comment + " | " + best.cond
 			res.Status = Failed
 			res.Why = best.why + "; bound: " + best.part
 		}
